@@ -95,10 +95,13 @@ Match(e, optLine) ==
 
 LineOptCb(l) == IF Accepted(l) /\ CbOptional(l) THEN <<l>> ELSE <<>>
 
+\* the reaction of the harness' event callback during this step (update_fw for the presented node), if any
+Rx(e) == [on |-> e.rx.on, n |-> e.rx.n, f |-> <<e.rx.f[1], e.rx.f[2]>>]
+
 \* ---- one trace event = one Gateway action -----------------------------------
 StepAction(e) ==
   \/ /\ e.a = "Recv" /\ Flavour = "async"
-     /\ \E ch \in ChoiceSet(e, e.l) : RecvAsync(e.l, ch)
+     /\ \E ch \in ChoiceSet(e, e.l) : RecvAsyncR(e.l, ch, Rx(e))
      /\ Match(e, LineOptCb(e.l))
   \/ /\ e.a = "Recv" /\ Flavour = "sync"
      /\ RecvSync(e.l)
@@ -106,7 +109,7 @@ StepAction(e) ==
   \/ /\ e.a = "Pump"
      /\ jobs # <<>>
      /\ IF Head(jobs).k = "L"
-        THEN (\E ch \in ChoiceSet(e, Head(jobs).l) : Pump(ch)) /\ Match(e, LineOptCb(Head(jobs).l))
+        THEN (\E ch \in ChoiceSet(e, Head(jobs).l) : PumpR(ch, Rx(e))) /\ Match(e, LineOptCb(Head(jobs).l))
         ELSE Pump([id |-> 0, ord |-> <<>>, ack |-> 0]) /\ Match(e, <<>>)
   \/ /\ e.a = "SetChild"
      /\ CSetChild(e.n, e.c, e.t, e.v, e.ack)
